@@ -4,9 +4,15 @@
 // 5 kinds of constant default expressions × 4 ways of spacing the declaration) × argument lists
 // (0 … n+1 arguments × 6 kinds of argument expressions) × 5 bodies × 9 call sites × padding across
 // the 4096-byte tokenizer switch. Every such (macro, call, site) is rendered once per way of
-// reaching the macro (direct, _self, import, from, from … as, multi-name from) on a fresh engine;
-// each output is compared with a binding model transcribed from the statement, so all ways of
-// reaching the macro are also compared with each other.
+// reaching the macro (direct, _self, import, from, from … as, multi-name from); each output is
+// compared with a binding model transcribed from the statement, so all ways of reaching the macro
+// are also compared with each other.
+//
+// History dimension (one engine, several renders): every way of reaching the macro is rendered
+// three times in a row on its engine; in the "seq" cases all ways of reaching the same library
+// live on ONE engine and are rendered one after the other, in every rotation of their order and
+// in reverse order, two rounds each; two sites import the library several times within one render
+// (import/from inside a loop body, an importing template included from a loop body).
 package main
 
 import (
@@ -134,10 +140,11 @@ const (
 	bSibling
 	bSelfSibling
 	bControl
+	bRelInc // the body includes './part': a name relative to the macro's defining template
 	nBodies
 )
 
-var bodyName = [...]string{"print", "set", "sib", "selfsib", "ctl"}
+var bodyName = [...]string{"print", "set", "sib", "selfsib", "ctl", "relinc"}
 
 // call sites
 const (
@@ -145,15 +152,30 @@ const (
 	sLoop
 	sIf
 	sBlock
-	sChildBlock // block of a template that extends another; the import stands inside the block
-	sInclude    // an included template reaches and calls the macro
-	sInMacro    // another macro (of the calling template) reaches and calls the macro
-	sLibDirect  // a macro w next to f in its defining template calls f(…); the caller reaches w
-	sLibSelf    // the same with _self.f(…)
+	sChildBlock  // block of a template that extends another; the import stands inside the block
+	sInclude     // an included template reaches and calls the macro
+	sInMacro     // another macro (of the calling template) reaches and calls the macro
+	sLibDirect   // a macro w next to f in its defining template calls f(…); the caller reaches w
+	sLibSelf     // the same with _self.f(…)
+	sLoopImport  // the import/from statement stands inside the loop body: several imports in one render
+	sLoopInclude // a loop body includes the template that reaches and calls the macro
 	nSites
 )
 
-var siteName = [...]string{"top", "loop", "if", "block", "childblock", "include", "inmacro", "libw", "libwself"}
+var siteName = [...]string{"top", "loop", "if", "block", "childblock", "include", "inmacro", "libw", "libwself", "loopimport", "loopinclude"}
+
+// histories
+const (
+	hEach = iota // every way of reaching the macro on its own engine, rendered three times in a row
+	hSeq         // all ways of reaching the macro on one engine, rendered one after the other
+)
+
+var histName = [...]string{"each", "seq"}
+
+const (
+	repeats = 3 // renders of the same template on one engine (hEach)
+	rounds  = 2 // passes over the sequence of calling templates (hSeq)
+)
 
 // ways of reaching the macro
 const (
@@ -179,11 +201,16 @@ type kase struct {
 	Body    int
 	Site    int
 	Pad     int // 0 none, 1 defining template above 4096 bytes, 2 calling template above 4096 bytes
+	Hist    int // hEach or hSeq
 }
 
 func (c *kase) key() string {
-	return fmt.Sprintf("%s/%d|m%d|%s|%s|args%d|%s|%s|%s|p%d", c.Name, c.N, c.DefMask, defStyleName[c.DefSt], spacingName[c.Spacing],
+	k := fmt.Sprintf("%s/%d|m%d|%s|%s|args%d|%s|%s|%s|p%d", c.Name, c.N, c.DefMask, defStyleName[c.DefSt], spacingName[c.Spacing],
 		c.Argc, argStyleName[c.ArgSt], bodyName[c.Body], siteName[c.Site], c.Pad)
+	if c.Hist == hSeq {
+		k += "|seq"
+	}
+	return k
 }
 
 // ---------------------------------------------------------------------------------------------
@@ -243,10 +270,19 @@ func (c *kase) bodySrc() string {
 		fmt.Fprintf(&b, "{{ g(%s, 'k') }}{{ g() }}", c.first())
 	case bSelfSibling:
 		fmt.Fprintf(&b, "{{ _self.g(%s) }}", c.first())
+	case bRelInc:
+		b.WriteString("{% include './part' %}")
 	}
 	b.WriteString("]")
 	return b.String()
 }
+
+// for body relinc the defining template lives in directory d/ next to d/part; a decoy 'part'
+// stands at the root, where the importing templates are
+const (
+	partSrc  = "(part)"
+	decoySrc = "(WRONG)"
+)
 
 const siblingSrc = "{% macro g(x, y = 'gy') %}({{ x }};{{ y }}){% endmacro %}"
 
@@ -269,17 +305,20 @@ var padding = "{#" + strings.Repeat("padding-", 520) + "#}"
 const after = "|{{ p0 }}|{{ zz }}|"
 
 // program builds the templates for one way of reaching the macro; ok=false when the combination
-// is not part of the space (see NOTES.md, exclusions)
-func (c *kase) program(reach int) (tpls map[string]string, ok bool) {
+// is not part of the space (see NOTES.md, exclusions). sfx is appended to the names of the calling
+// template and of the template it includes, so that the programs of several ways can live on one
+// engine (they share lib, base and part, whose sources do not depend on the way).
+func (c *kase) program(reach int, sfx string) (tpls map[string]string, mainName string, ok bool) {
 	args := c.argList()
 	target := c.Name // the macro the caller reaches in the defining template
 	callee := c.Name + "(" + args + ")"
 	libExtra := ""
+	local := reach == rDirect || reach == rSelf
 	switch c.Site {
 	case sLibDirect, sLibSelf:
 		// w() stands next to f and calls it; the caller reaches w
 		if usesOuter(c.ArgSt) {
-			return nil, false // w's body would read outer variables
+			return nil, "", false // w's body would read outer variables
 		}
 		inner := c.Name + "(" + args + ")"
 		if c.Site == sLibSelf {
@@ -290,16 +329,30 @@ func (c *kase) program(reach int) (tpls map[string]string, ok bool) {
 		callee = "w()"
 	case sInMacro:
 		if usesOuter(c.ArgSt) {
-			return nil, false
+			return nil, "", false
 		}
 	case sChildBlock:
-		if reach == rDirect || reach == rSelf {
-			return nil, false // a child template's macro definitions stand outside its blocks
+		if local {
+			return nil, "", false // a child template's macro definitions stand outside its blocks
+		}
+	case sLoopImport:
+		if local {
+			return nil, "", false // no import statement to repeat; definitions inside a loop body are not specified
 		}
 	}
 	calleeArgs := callee[len(target):]
 
-	local := reach == rDirect || reach == rSelf
+	// names: for body relinc the defining template lives in d/, the importing templates at the root
+	dir := ""
+	if c.Body == bRelInc {
+		dir = "d/"
+	}
+	libName := dir + "lib"
+	mainName, incName := "main"+sfx, "inc"+sfx
+	if local { // the calling template (or the one it includes) is the defining template
+		mainName, incName = dir+mainName, dir+incName
+	}
+
 	// how the calling template gets at the macro, and the call expression
 	var reachStmt, call string
 	switch reach {
@@ -308,23 +361,23 @@ func (c *kase) program(reach int) (tpls map[string]string, ok bool) {
 	case rSelf:
 		call = "_self." + target + calleeArgs
 	case rImport:
-		reachStmt = "{% import 'lib' as m %}"
+		reachStmt = "{% import '" + libName + "' as m %}"
 		call = "m." + target + calleeArgs
 	case rFrom:
-		reachStmt = "{% from 'lib' import " + target + " %}"
+		reachStmt = "{% from '" + libName + "' import " + target + " %}"
 		call = target + calleeArgs
 	case rAlias:
-		reachStmt = "{% from \"lib\" import " + target + " as h %}"
+		reachStmt = "{% from \"" + libName + "\" import " + target + " as h %}"
 		call = "h" + calleeArgs
 	case rMulti:
-		reachStmt = "{% from 'lib' import g as g2, " + target + " as h %}"
+		reachStmt = "{% from '" + libName + "' import g as g2, " + target + " as h %}"
 		call = "h" + calleeArgs
 	}
 	if builtinName(c.Name) && target == c.Name && (reach == rDirect || reach == rFrom) {
-		return nil, false // a bare call of that name could mean the built-in function
+		return nil, "", false // a bare call of that name could mean the built-in function
 	}
 	if builtinName(c.Name) && c.Site == sLibDirect {
-		return nil, false // w calls the bare name
+		return nil, "", false // w calls the bare name
 	}
 	defs := c.defs() + libExtra
 	if local {
@@ -339,6 +392,8 @@ func (c *kase) program(reach int) (tpls map[string]string, ok bool) {
 		main = reachStmt + use
 	case sLoop:
 		main = reachStmt + "{% for i in xs %}" + use + ";{% endfor %}"
+	case sLoopImport:
+		main = "{% for i in xs %}" + reachStmt + use + ";{% endfor %}"
 	case sIf:
 		main = reachStmt + "{% if t %}" + use + "{% else %}no{% endif %}"
 	case sBlock:
@@ -347,8 +402,11 @@ func (c *kase) program(reach int) (tpls map[string]string, ok bool) {
 		tpls["base"] = "<{% block k %}K0{% endblock %}>" + after
 		main = "{% extends 'base' %}{% block k %}" + reachStmt + use + "{% endblock %}"
 	case sInclude:
-		tpls["inc"] = reachStmt + use
-		main = "{% include 'inc' %}"
+		tpls[incName] = reachStmt + use
+		main = "{% include '" + incName + "' %}"
+	case sLoopInclude:
+		tpls[incName] = reachStmt + use
+		main = "{% for i in xs %}{% include '" + incName + "' %};{% endfor %}"
 	case sInMacro:
 		if local {
 			main = defs + "{% macro v() %}(" + use + "){% endmacro %}{{ v() }}"
@@ -364,17 +422,21 @@ func (c *kase) program(reach int) (tpls map[string]string, ok bool) {
 		if c.Pad == 1 {
 			lib = padding + lib
 		}
-		tpls["lib"] = lib
+		tpls[libName] = lib
+	}
+	if c.Body == bRelInc {
+		tpls[dir+"part"] = partSrc
+		tpls["part"] = decoySrc
 	}
 	if c.Pad == 2 || (c.Pad == 1 && local) {
-		if c.Site == sInclude {
-			tpls["inc"] = padding + tpls["inc"]
+		if c.Site == sInclude || c.Site == sLoopInclude {
+			tpls[incName] = padding + tpls[incName]
 		} else {
 			main = padding + main
 		}
 	}
-	tpls["main"] = main
-	return tpls, true
+	tpls[mainName] = main
+	return tpls, mainName, true
 }
 
 var builtins = map[string]bool{"max": true}
@@ -437,6 +499,8 @@ func (c *kase) callOutput() string {
 		b.WriteString("(" + first.s + ";k)(;gy)")
 	case bSelfSibling:
 		b.WriteString("(" + first.s + ";gy)")
+	case bRelInc:
+		b.WriteString(partSrc)
 	}
 	b.WriteString("]")
 	return b.String()
@@ -445,7 +509,7 @@ func (c *kase) callOutput() string {
 func (c *kase) expected() string {
 	out := c.callOutput()
 	switch c.Site {
-	case sLoop:
+	case sLoop, sLoopImport, sLoopInclude:
 		out = out + ";" + out + ";"
 	case sBlock, sChildBlock:
 		out = "<" + out + ">"
@@ -467,7 +531,8 @@ func ctx() map[string]interface{} {
 
 // ---------------------------------------------------------------------------------------------
 
-func runTwig(src map[string]string) (string, string) {
+// newEngine registers the templates (in name order) on a fresh engine
+func newEngine(src map[string]string) (*twig.Engine, string) {
 	e := twig.New()
 	names := make([]string, 0, len(src))
 	for n := range src {
@@ -476,10 +541,14 @@ func runTwig(src map[string]string) (string, string) {
 	sort.Strings(names)
 	for _, n := range names {
 		if err := e.RegisterString(n, src[n]); err != nil {
-			return "", "register " + n + ": " + err.Error()
+			return nil, "register " + n + ": " + err.Error()
 		}
 	}
-	o, err := e.Render("main", ctx())
+	return e, ""
+}
+
+func render(e *twig.Engine, name string) (string, string) {
+	o, err := e.Render(name, ctx())
 	if err != nil {
 		return "", "render: " + err.Error()
 	}
@@ -494,55 +563,161 @@ func show(src map[string]string) map[string]string {
 	return m
 }
 
+// step is one render of a history: which way's calling template is rendered
+type step struct {
+	reach int
+	name  string // template rendered
+}
+
+// history is one engine's life: the templates registered on it and the renders made, in order
+type history struct {
+	label string
+	src   map[string]string
+	steps []step
+}
+
+// histories lists the engine lives of a case.
+// hEach: one engine per way of reaching the macro; its calling template is rendered `repeats` times.
+// hSeq: every engine holds the calling templates of all ways (they share lib); the engines differ
+// in the order in which these are rendered: every rotation of the canonical order and the reverse
+// order, `rounds` passes each.
+func (c *kase) histories() []history {
+	var hs []history
+	if c.Hist == hEach {
+		for r := 0; r < nReaches; r++ {
+			src, name, ok := c.program(r, "")
+			if !ok {
+				continue
+			}
+			h := history{label: reachName[r], src: src}
+			for i := 0; i < repeats; i++ {
+				h.steps = append(h.steps, step{r, name})
+			}
+			hs = append(hs, h)
+		}
+		return hs
+	}
+	all := map[string]string{}
+	var order []step
+	for r := 0; r < nReaches; r++ {
+		src, name, ok := c.program(r, "_"+reachName[r])
+		if !ok {
+			continue
+		}
+		for n, s := range src {
+			if old, dup := all[n]; dup && old != s {
+				panic("check bug: template " + n + " differs between ways of reaching the macro")
+			}
+			all[n] = s
+		}
+		order = append(order, step{r, name})
+	}
+	seq := func(label string, first []step) {
+		h := history{label: label, src: all}
+		for i := 0; i < rounds; i++ {
+			h.steps = append(h.steps, first...)
+		}
+		hs = append(hs, h)
+	}
+	for k := range order {
+		rot := append(append([]step{}, order[k:]...), order[:k]...)
+		seq("from "+reachName[order[k].reach], rot)
+	}
+	if len(order) > 2 {
+		rev := make([]step, len(order))
+		for i, s := range order {
+			rev[len(order)-1-i] = s
+		}
+		seq("reversed", rev)
+	}
+	return hs
+}
+
+func (c *kase) hasProgram() bool {
+	for r := 0; r < nReaches; r++ {
+		if _, _, ok := c.program(r, ""); ok {
+			return true
+		}
+	}
+	return false
+}
+
 func check(c kase) *vlib.Outcome {
 	want := c.expected()
 	_, pattern := c.bind()
+	class := fmt.Sprintf("%s|%s|%s", pattern, bodyName[c.Body], siteName[c.Site])
+	if c.Hist != hEach {
+		class += "|" + histName[c.Hist]
+	}
 	o := &vlib.Outcome{
 		Nontrivial: c.N+c.Argc > 0,
-		Class:      fmt.Sprintf("%s|%s|%s", pattern, bodyName[c.Body], siteName[c.Site]),
+		Class:      class,
 		Counters:   map[string]int64{},
 	}
 	var bad []string
 	var detail []interface{}
 	allKnown := true
 	outs := map[string]bool{}
-	for r := 0; r < nReaches; r++ {
-		src, ok := c.program(r)
-		if !ok {
-			continue
+	for _, h := range c.histories() {
+		o.Counters["engines"]++
+		e, regErr := newEngine(h.src)
+		shown := false
+		for i, st := range h.steps {
+			var got, errText string
+			if regErr != "" {
+				errText = regErr
+			} else {
+				o.Counters["renders"]++
+				if i > 0 {
+					o.Counters["renders_on_used_engine"]++
+				}
+				got, errText = render(e, st.name)
+			}
+			obs := fmt.Sprintf("%q", got)
+			if errText != "" {
+				obs = "error: " + errText
+			}
+			outs[obs] = true
+			if errText == "" && got == want {
+				continue
+			}
+			where := fmt.Sprintf("engine %q, render %d of %d (%s, reached by %s)", h.label, i+1, len(h.steps), st.name, reachName[st.reach])
+			if len(bad) < 4 {
+				if !shown {
+					bad = append(bad, fmt.Sprintf("%s: %v gives %s", where, show(h.src), obs))
+					shown = true
+				} else {
+					bad = append(bad, fmt.Sprintf("%s: %s", where, obs))
+				}
+			}
+			var prior []string
+			for _, p := range h.steps[:i] {
+				prior = append(prior, p.name)
+			}
+			if len(detail) < 12 {
+				detail = append(detail, map[string]interface{}{"engine": h.label, "reach": reachName[st.reach], "templates": show(h.src),
+					"rendered_before_on_this_engine": prior, "rendered": st.name, "observed": obs})
+			}
+			// KF-C12-1: _self.<name>(…) calls the built-in function <name> instead of the
+			// template's macro of that name. Predicate: the macro's name is a built-in function's and
+			// the call is written _self.<name>(…) (by the caller, or by w for site libwself).
+			// Quirk: the call yields what max(<int arguments>) yields: the largest = the last argument.
+			viaSelf := (st.reach == rSelf && c.Site != sLibDirect && c.Site != sLibSelf) || c.Site == sLibSelf
+			if builtinName(c.Name) && viaSelf && c.ArgSt == asInt && c.Argc >= 1 && errText == "" &&
+				got == strings.Replace(want, c.callOutput(), fmt.Sprint(10+c.Argc-1), -1) {
+				continue
+			}
+			allKnown = false
+			if regErr != "" {
+				break
+			}
 		}
-		o.Counters["renders"]++
-		got, errText := runTwig(src)
-		obs := fmt.Sprintf("%q", got)
-		if errText != "" {
-			obs = "error: " + errText
-		}
-		outs[obs] = true
-		if errText == "" && got == want {
-			continue
-		}
-		if len(bad) == 0 {
-			bad = append(bad, fmt.Sprintf("reached by %s: %v gives %s", reachName[r], show(src), obs))
-		} else {
-			bad = append(bad, fmt.Sprintf("by %s: %s", reachName[r], obs))
-		}
-		detail = append(detail, map[string]interface{}{"reach": reachName[r], "templates": show(src), "observed": obs})
-		// KF-C12-1 (open): _self.<name>(…) calls the built-in function <name> instead of the
-		// template's macro of that name. Predicate: the macro's name is a built-in function's and
-		// the call is written _self.<name>(…) (by the caller, or by w for site libwself).
-		// Quirk: the call yields what max(<int arguments>) yields: the largest = the last argument.
-		viaSelf := (r == rSelf && c.Site != sLibDirect && c.Site != sLibSelf) || c.Site == sLibSelf
-		if builtinName(c.Name) && viaSelf && c.ArgSt == asInt && c.Argc >= 1 && errText == "" &&
-			got == strings.Replace(want, c.callOutput(), fmt.Sprint(10+c.Argc-1), -1) {
-			continue
-		}
-		allKnown = false
 	}
 	if len(outs) > 1 {
-		o.Counters["cases_with_disagreeing_reaches"]++
+		o.Counters["cases_with_disagreeing_renders"]++
 	}
 	if len(bad) > 0 {
-		o.Violation = fmt.Sprintf("want %q from every way of reaching the macro; %s", want, strings.Join(bad, "; "))
+		o.Violation = fmt.Sprintf("want %q from every render, however the macro is reached and whatever the engine rendered before; %s", want, strings.Join(bad, "; "))
 		o.Detail = map[string]interface{}{"expected": want, "context": ctx(), "mismatches": detail}
 		if allKnown {
 			o.Known = "KF-C12-1"
@@ -555,13 +730,14 @@ func check(c kase) *vlib.Outcome {
 // enumeration: a union of full products (families), simplest first
 
 type family struct {
-	name             string
-	names            []string
-	maxN             int
-	defSt, spacings  []int
-	argSt, bodies    []int
-	sites, pads      []int
-	minArgc          int
+	name            string
+	names           []string
+	maxN            int
+	defSt, spacings []int
+	argSt, bodies   []int
+	sites, pads     []int
+	minArgc         int
+	hist            int
 }
 
 func ints(n int) []int {
@@ -578,6 +754,9 @@ func families(thorough bool) []family {
 		return []family{
 			{name: "full", names: f, maxN: 3, defSt: ints(nDefStyles), spacings: ints(nSpacings), argSt: ints(nArgStyles), bodies: ints(nBodies), sites: ints(nSites), pads: []int{0, 1, 2}},
 			{name: "builtin-name", names: []string{"max"}, maxN: 3, defSt: []int{0, 2}, spacings: []int{0, 3}, argSt: []int{asInt}, bodies: ints(nBodies), sites: ints(nSites), pads: []int{0, 1}, minArgc: 1},
+			// all ways of reaching the macro on one engine, rendered one after the other
+			{name: "seq", names: f, maxN: 3, defSt: []int{0, 1}, spacings: []int{0}, argSt: ints(nArgStyles), bodies: ints(nBodies), sites: ints(nSites), pads: []int{0, 1, 2}, hist: hSeq},
+			{name: "seq-builtin-name", names: []string{"max"}, maxN: 2, defSt: []int{0}, spacings: []int{0}, argSt: []int{asInt}, bodies: ints(nBodies), sites: ints(nSites), pads: []int{0}, minArgc: 1, hist: hSeq},
 		}
 	}
 	return []family{
@@ -588,6 +767,9 @@ func families(thorough bool) []family {
 		// padding of either template on every site
 		{name: "pad", names: f, maxN: 2, defSt: []int{1, 3}, spacings: []int{0, 1}, argSt: []int{asStr, asExpr}, bodies: []int{bSet, bSibling, bSelfSibling}, sites: ints(nSites), pads: []int{1, 2}},
 		{name: "builtin-name", names: []string{"max"}, maxN: 2, defSt: []int{0}, spacings: []int{0}, argSt: []int{asInt}, bodies: []int{bPrint, bSelfSibling}, sites: ints(nSites), pads: []int{0}, minArgc: 1},
+		// all ways of reaching the macro on one engine, rendered one after the other: the core product,
+		// with the library on either side of the tokenizer switch
+		{name: "seq", names: f, maxN: 3, defSt: []int{0}, spacings: []int{0}, argSt: []int{asStr, asPar}, bodies: ints(nBodies), sites: ints(nSites), pads: []int{0, 1}, hist: hSeq},
 	}
 }
 
@@ -608,7 +790,7 @@ func (f *family) each(emit func(kase)) {
 								for _, b := range f.bodies {
 									for _, s := range f.sites {
 										for _, p := range f.pads {
-											emit(kase{Name: nm, N: n, DefMask: mask, DefSt: ds, Spacing: sp, Argc: argc, ArgSt: as, Body: b, Site: s, Pad: p})
+											emit(kase{Name: nm, N: n, DefMask: mask, DefSt: ds, Spacing: sp, Argc: argc, ArgSt: as, Body: b, Site: s, Pad: p, Hist: f.hist})
 										}
 									}
 								}
@@ -638,13 +820,7 @@ func run(t *vlib.T) {
 			}
 			seen[k] = struct{}{}
 			// skip combinations for which no way of reaching the macro is inside the space
-			n := 0
-			for r := 0; r < nReaches; r++ {
-				if _, ok := c.program(r); ok {
-					n++
-				}
-			}
-			if n == 0 {
+			if !c.hasProgram() {
 				return
 			}
 			t.Case(k, func() *vlib.Outcome { return check(c) })
@@ -656,7 +832,7 @@ func main() {
 	vlib.Main(vlib.Spec{
 		ID:    "C12",
 		Level: "exploration",
-		Rule: "every macro signature with 0–3 parameters × every subset with defaults × 5 kinds of constant default × 4 declaration spacings × argument lists of 0…n+1 arguments × 6 kinds of argument × 5 bodies (print, set inside, call a sibling, call a sibling through _self, if/for over parameters) × 9 call sites (top, for, if, block, block of an extending template, included template, inside another macro, through a macro w next to f calling f / _self.f) × padding of the defining or the calling template above 4096 bytes, as a union of full products (families, see NOTES.md). One case renders the same macro and call once per way of reaching it (direct, _self, import, from, from-as, multi-name from) and compares every output with the binding model. Non-trivial: the signature or the call has at least one parameter/argument, i.e. a binding decision is made",
+		Rule:  "every macro signature with 0–3 parameters × every subset with defaults × 5 kinds of constant default × 4 declaration spacings × argument lists of 0…n+1 arguments × 6 kinds of argument × 6 bodies (print, set inside, call a sibling, call a sibling through _self, if/for over parameters, include a name relative to the defining template) × 11 call sites (top, for, if, block, block of an extending template, included template, inside another macro, through a macro w next to f calling f / _self.f, import statement inside a for body, importing template included from a for body) × padding of the defining or the calling template above 4096 bytes, as a union of full products (families, see NOTES.md). One case takes the same macro and call once per way of reaching it (direct, _self, import, from, from-as, multi-name from) and compares every render with the binding model. Histories on one engine: history 'each' renders every way's calling template three times in a row on its own engine; history 'seq' (own families) puts the calling templates of all ways on ONE engine next to one library and renders them one after the other, in every rotation of their order and in reverse, two passes each. Non-trivial: the signature or the call has at least one parameter/argument, i.e. a binding decision is made",
 		Assumptions: []string{
 			"defaults and arguments are constant expressions or caller-scope variables; bodies read only their parameters; the result of a macro call is only printed; calls stand after the definitions/imports they use",
 			"macros are defined at top level of a template that does not extend another one; more than three parameters, named arguments and other body shapes are outside the bound",
@@ -666,10 +842,11 @@ func main() {
 		Extra: func(tier string, cov map[string]interface{}) {
 			var fs []string
 			for _, f := range families(tier == "thorough") {
-				fs = append(fs, fmt.Sprintf("%s: macro names %v, 0-%d parameters x every default subset, %d default kinds, %d spacings, %d argument kinds, %d bodies, %d sites, %d padding variants, %d ways of reaching per case",
-					f.name, f.names, f.maxN, len(f.defSt), len(f.spacings), len(f.argSt), len(f.bodies), len(f.sites), len(f.pads), nReaches))
+				fs = append(fs, fmt.Sprintf("%s: macro names %v, 0-%d parameters x every default subset, %d default kinds, %d spacings, %d argument kinds, %d bodies, %d sites, %d padding variants, %d ways of reaching per case, history %s",
+					f.name, f.names, f.maxN, len(f.defSt), len(f.spacings), len(f.argSt), len(f.bodies), len(f.sites), len(f.pads), nReaches, histName[f.hist]))
 			}
 			cov["families"] = fs
+			cov["histories"] = fmt.Sprintf("each: one engine per way of reaching the macro, its calling template rendered %d times in a row; seq: the calling templates of all ways on one engine, rendered one after the other in every rotation of the order %v and in reverse order, %d passes each", repeats, reachName, rounds)
 		},
 	})
 }
